@@ -460,7 +460,7 @@ ReturnStep(s) ==
                  THEN [s EXCEPT !.frames[GlobalFrame].vars = Bind(@, fr.x, v), !.ctrl = Ret(Unspec), !.kont = k]
             ELSE Fail(s, "Unbound")
        [] fr.k = "topdef" ->
-            [s EXCEPT !.frames[GlobalFrame].vars = Bind(@, fr.x, v), !.status = "done", !.result = [k |-> "none"],
+            [s EXCEPT !.frames[fr.env].vars = Bind(@, fr.x, v), !.status = "done", !.result = [k |-> "none"],
                       !.ctrl = Ret(Unspec), !.kont = <<>>]
        [] fr.k = "let" ->
             LET done == Append(fr.done, v) IN
@@ -513,14 +513,17 @@ Step(s) == CASE s.ctrl.m = "eval" -> EvalStep(s)
              [] s.ctrl.m = "ret" -> ReturnStep(s)
              [] s.ctrl.m = "apply" -> ApplyStep(s)
 
+\* a definition or expression evaluated at the top of frame fr (the program's global frame, or a library's root frame)
+SubmitIn(s, form, fr) ==
+  IF form.t = "define"
+  THEN [s EXCEPT !.ctrl = Ev(form.e, fr), !.kont = <<[k |-> "topdef", x |-> form.x, env |-> fr]>>,
+                 !.out = <<>>, !.status = "run", !.result = [k |-> "none"]]
+  ELSE [s EXCEPT !.ctrl = Ev(form, fr), !.kont = <<>>, !.out = <<>>, !.status = "run",
+                 !.result = [k |-> "none"]]
 \* hand one top-level form to the machine; the store (frames, vecs) is whatever earlier forms left
 Submit(s, form) ==
   IF form.t = "defsyntax"
   THEN [s EXCEPT !.syn = Bind(@, form.kw, form.k), !.ctrl = Ret(Unspec), !.kont = <<>>, !.out = <<>>,
                  !.status = "done", !.result = [k |-> "none"]]
-  ELSE IF form.t = "define"
-  THEN [s EXCEPT !.ctrl = Ev(form.e, GlobalFrame), !.kont = <<[k |-> "topdef", x |-> form.x]>>,
-                 !.out = <<>>, !.status = "run", !.result = [k |-> "none"]]
-  ELSE [s EXCEPT !.ctrl = Ev(form, GlobalFrame), !.kont = <<>>, !.out = <<>>, !.status = "run",
-                 !.result = [k |-> "none"]]
+  ELSE SubmitIn(s, form, GlobalFrame)
 =============================================================================
